@@ -775,10 +775,25 @@ func runScenario(c *vlib.Ctx, sc scenario, r *vlib.Rand, label string) {
 		if sc.batchDrain {
 			cl.SendAndClear()
 		}
-		for atomic.LoadInt32(&col.sentinelSeen) == 0 {
+		noDrain := 0
+		for w := 0; atomic.LoadInt32(&col.sentinelSeen) == 0; w++ {
 			if time.Now().After(deadline) {
 				c.Inconclusive(label, fmt.Sprintf("sentinel not received within 120 s (queue size %d)", cl.Queue.Size()))
 				return
+			}
+			if w%250 == 249 && !sc.batchDrain && (sc.bg || sc.singleton) {
+				// the queue is drained by the client's background goroutine; if the process has
+				// no such goroutine, what was accepted can never leave: a fact, not a timeout
+				if processGoroutines() == 0 && cl.Queue.Size() > 0 {
+					noDrain++
+				} else {
+					noDrain = 0
+				}
+				if noDrain >= 3 {
+					c.Fail("loss:queue-never-drained/"+sc.kind, fmt.Sprintf("%d packs were accepted into the queue (Send returned nil) but the process has no background drain goroutine: they can never reach the collector", cl.Queue.Size()),
+						map[string]interface{}{"scenario": fmt.Sprintf("%+v", sc), "label": label, "queue_size": cl.Queue.Size()})
+					return
+				}
 			}
 			time.Sleep(2 * time.Millisecond)
 		}
@@ -1401,6 +1416,15 @@ func main() {
 	c.Cases("queue-fault-big", scale(6, 100), func(i int, r *vlib.Rand) {
 		sch := []cut{{After: r.Range(0, 6<<20), RST: r.Bool(), Refuse: 0}}
 		runScenario(c, scenario{kind: "queue-fault-big", senders: r.Range(1, 3), perSender: r.Range(4, 9), gomax: gomaxes[i%4], useQueue: true, queueSize: 0, bg: true, bigFrames: true, schedule: sch}, r, fmt.Sprint("queue-fault-big#", i))
+	})
+	// production path in queue mode: the singleton of one process is created, used, destroyed
+	// and created again (several generations per child process)
+	c.Cases("singleton-queue", scale(6, 60), func(i int, r *vlib.Rand) {
+		for gen := 0; gen < 3; gen++ { // generations of the singleton within this process
+			queue := gen != 1 || r.Bool()
+			runScenario(c, scenario{kind: "singleton-queue", senders: r.Range(1, 4), perSender: r.Range(10, 40), gomax: gomaxes[(i+1)%4], singleton: true, useQueue: queue, queueSize: []int{0, 1000}[r.Intn(2)]}, r.Fork(fmt.Sprint("gen", gen)), fmt.Sprintf("singleton-queue#%d/gen%d", i, gen))
+			c.Count("singleton_generations", 1)
+		}
 	})
 	// production path: singleton with its background goroutine, healthy connection
 	c.Cases("singleton-healthy", scale(2, 16), func(i int, r *vlib.Rand) {
